@@ -152,6 +152,47 @@ class _Names(ast.NodeVisitor):
     visit_SetComp = visit_DictComp = visit_GeneratorExp = visit_ListComp
 
 
+def _loads(nodes):
+    out = set()
+    for n in nodes if isinstance(nodes, list) else [nodes]:
+        for sub in ast.walk(n):
+            if isinstance(sub, ast.Name) and isinstance(sub.ctx, ast.Load):
+                out.add(sub.id)
+    return out
+
+
+def compute_live_after(func):
+    """for every loop of a function: the names that may be read after the loop finishes (flow-insensitive inside
+    statements, flow-sensitive across statement order; a loop nested in another loop sees the outer body again)"""
+    live = {}
+
+    def walk_block(stmts, cont):
+        after = set(cont)
+        for st in reversed(stmts):
+            handle(st, after)
+            after |= _loads(st)
+
+    def handle(st, after):
+        if isinstance(st, (ast.For, ast.While)):
+            live[id(st)] = set(after) | _loads(st.orelse)
+            walk_block(st.body, after | _loads(st))
+            walk_block(st.orelse, after)
+        elif isinstance(st, ast.If):
+            walk_block(st.body, after)
+            walk_block(st.orelse, after)
+        elif isinstance(st, ast.With):
+            walk_block(st.body, after)
+        elif isinstance(st, ast.Try):
+            rest = after | _loads(st.handlers) | _loads(st.orelse) | _loads(st.finalbody)
+            walk_block(st.body, rest)
+            for h in st.handlers:
+                walk_block(h.body, after | _loads(st.finalbody))
+            walk_block(st.orelse, after | _loads(st.finalbody))
+            walk_block(st.finalbody, after)
+    walk_block(func.body, set())
+    return live
+
+
 def _has(node_list, kinds):
     for n in node_list:
         for sub in ast.walk(n):
@@ -193,6 +234,7 @@ class Transformer(ast.NodeTransformer):
         self.loop_counter = []   # per function
         self.comp_counter = []
         self.yield_to_emit = yield_to_emit
+        self.live_after = {}
 
     # -- imports (T4, T5) ------------------------------------------------------------------------------
     def visit_Import(self, node):
@@ -235,6 +277,7 @@ class Transformer(ast.NodeTransformer):
 
     # -- scopes ----------------------------------------------------------------------------------------
     def _enter_func(self, node):
+        self.live_after.update(compute_live_after(node))
         self.scope.append(node.name)
         self.loop_counter.append(0)
         self.comp_counter.append(0)
@@ -347,8 +390,7 @@ class Transformer(ast.NodeTransformer):
             self.generic_visit(node)
             return node
         site = self._site("for", node)
-        import copy
-        original = copy.deepcopy(node)
+        live = self.live_after.get(id(node), None)
         # inner loops of the *cut copy* and of the *original copy* get distinct ordinals only once: we transform
         # the body once and reuse the transformed body in both branches
         node.body = self._visit_block(node.body)
@@ -362,7 +404,7 @@ class Transformer(ast.NodeTransformer):
             names.visit(s)
         bc = _break_continue_own(node.body)
         cut = self._cut_template(site, names, node.body, node.orelse, iter_expr=node.iter, target=node.target,
-                                 test=None, has_break=bc["break"])
+                                 test=None, has_break=bc["break"], live=live)
         wrapper = ast.If(test=_call("_vc_.cut", [ast.Constant(value=site)]), body=cut, orelse=[original])
         return ast.copy_location(wrapper, node)
 
@@ -371,6 +413,7 @@ class Transformer(ast.NodeTransformer):
             self.generic_visit(node)
             return node
         site = self._site("while", node)
+        live = self.live_after.get(id(node), None)
         node.body = self._visit_block(node.body)
         node.orelse = self._visit_block(node.orelse)
         node.test = self.visit(node.test)
@@ -381,11 +424,11 @@ class Transformer(ast.NodeTransformer):
             names.visit(s)
         bc = _break_continue_own(node.body)
         cut = self._cut_template(site, names, node.body, node.orelse, iter_expr=None, target=None, test=node.test,
-                                 has_break=bc["break"])
+                                 has_break=bc["break"], live=live)
         wrapper = ast.If(test=_call("_vc_.cut", [ast.Constant(value=site)]), body=cut, orelse=[original])
         return ast.copy_location(wrapper, node)
 
-    def _cut_template(self, site, names, body, orelse, iter_expr, target, test, has_break):
+    def _cut_template(self, site, names, body, orelse, iter_expr, target, test, has_break, live=None):
         """
         __L = __vc.loop(site, <iter or None>, locals(), bound, mutated)
         <for each bound name v>:  v = __L.hv('v');  if v is __vc.UNBOUND: del v
@@ -410,8 +453,9 @@ class Transformer(ast.NodeTransformer):
             value=_call("_vc_.loop", [ast.Constant(value=site), iter_expr or ast.Constant(value=None),
                                       _call("locals", []),
                                       ast.Constant(value=tuple(names.bound)), ast.Constant(value=tuple(names.mutated)),
-                                      ast.Constant(value=tuple(_target_names(target)))])))
-        for v in names.bound:
+                                      ast.Constant(value=tuple(_target_names(target))),
+                                      ast.Constant(value=None if live is None else tuple(sorted(live)))])))
+        for v in list(names.bound) + [m for m in names.mutated if m not in names.bound]:
             stmts.append(ast.Assign(targets=[ast.Name(id=v, ctx=ast.Store())],
                                     value=_call(f"{L}.hv", [ast.Constant(value=v)])))
             stmts.append(ast.If(test=ast.Compare(left=ast.Name(id=v, ctx=ast.Load()), ops=[ast.Is()],
